@@ -252,6 +252,7 @@ pub fn run(case: &Sx) -> Sx {
             match tag.as_str() {
                 "sni" => a2l.sort_new_items(),
                 "sort" => a2l.sort(),
+                "rt" => {}
                 "push" => {
                     let e = dec_el(&o[2]);
                     push_el(&mut a2l.project.module[0], o[1].as_usize(), &e)
@@ -272,6 +273,18 @@ pub fn run(case: &Sx) -> Sx {
                 let idem = again.write_to_string() == text && again == a2l;
                 if let Sx::L(v) = &mut obs {
                     v.push(Sx::L(vec![Sx::b(reloaded.is_ok()), Sx::b(eq), Sx::b(same_text), Sx::b(idem)]));
+                }
+            }
+            if tag == "rt" {
+                // C01: write, load again, compare the model and the text written from the reloaded model
+                let text = a2l.write_to_string();
+                let reloaded = a2lfile::load_from_string(&text, None, true);
+                let (eq, same_text) = match &reloaded {
+                    Ok((r, _log)) => (*r == a2l, r.write_to_string() == text),
+                    Err(_) => (false, false),
+                };
+                if let Sx::L(v) = &mut obs {
+                    v.push(Sx::L(vec![Sx::b(reloaded.is_ok()), Sx::b(eq), Sx::b(same_text)]));
                 }
             }
             obs
